@@ -51,6 +51,10 @@ import (
 // controls so that they do not depend on any value lnd reports.
 var verifC05Csv = [2]uint32{5, 4}
 
+// verifC05ValueIsVerdict: the value/completeness clause (statement: "the value
+// claimable equals its balance plus HTLCs due to it up to fees and dust").
+const verifC05ValueIsVerdict = false
+
 const (
 	verifC05LeaseExpiry = 1000 // ThawHeight set by the engine for lease channels
 	verifC05Height      = 500  // "confirmation height" handed to lnd
@@ -617,14 +621,14 @@ func (c *verifC05Run) localHtlc(i int, fk *verifFork, kind string, closeTx *wire
 		var ri input.Input
 		switch {
 		case timeout && isTaproot:
-			ri = ptrOf(input.MakeHtlcSecondLevelTimeoutTaprootInput(stx, details, verifC05Height))
+			ri = verifC05Ptr(input.MakeHtlcSecondLevelTimeoutTaprootInput(stx, details, verifC05Height))
 		case timeout:
-			ri = ptrOf(input.MakeHtlcSecondLevelTimeoutAnchorInput(stx, details, verifC05Height))
+			ri = verifC05Ptr(input.MakeHtlcSecondLevelTimeoutAnchorInput(stx, details, verifC05Height))
 		case isTaproot:
-			ri = ptrOf(input.MakeHtlcSecondLevelSuccessTaprootInput(stx, details,
+			ri = verifC05Ptr(input.MakeHtlcSecondLevelSuccessTaprootInput(stx, details,
 				lntypes.Preimage(lh.Preimage), verifC05Height))
 		default:
-			ri = ptrOf(input.MakeHtlcSecondLevelSuccessAnchorInput(stx, details,
+			ri = verifC05Ptr(input.MakeHtlcSecondLevelSuccessAnchorInput(stx, details,
 				lntypes.Preimage(lh.Preimage), verifC05Height))
 		}
 		if !c.sweep("second_level_resign_valid", kind,
@@ -667,7 +671,7 @@ func (c *verifC05Run) localHtlc(i int, fk *verifFork, kind string, closeTx *wire
 	return true
 }
 
-func ptrOf[T any](v T) *T { return &v }
+func verifC05Ptr[T any](v T) *T { return &v }
 
 // ---------------------------------------------------------------------------
 // 2. the counterparty's commitment confirms
@@ -803,15 +807,15 @@ func (c *verifC05Run) remoteClose(i int, fk *verifFork, pending bool) {
 			mk := func(pre []byte) input.Input {
 				switch {
 				case st.ChanType.IsTaprootFinal():
-					return ptrOf(input.MakeTaprootHtlcSucceedInputFinal(&r.ClaimOutpoint,
+					return verifC05Ptr(input.MakeTaprootHtlcSucceedInputFinal(&r.ClaimOutpoint,
 						&r.SweepSignDesc, pre, verifC05Height, r.CsvDelay,
 						input.WithResolutionBlob(r.ResolutionBlob)))
 				case isTaprootOut(&r.SweepSignDesc):
-					return ptrOf(input.MakeTaprootHtlcSucceedInput(&r.ClaimOutpoint,
+					return verifC05Ptr(input.MakeTaprootHtlcSucceedInput(&r.ClaimOutpoint,
 						&r.SweepSignDesc, pre, verifC05Height, r.CsvDelay,
 						input.WithResolutionBlob(r.ResolutionBlob)))
 				}
-				return ptrOf(input.MakeHtlcSucceedInput(&r.ClaimOutpoint,
+				return verifC05Ptr(input.MakeHtlcSucceedInput(&r.ClaimOutpoint,
 					&r.SweepSignDesc, pre, verifC05Height, r.CsvDelay))
 			}
 			if !c.sweep(oracle, kind, fmt.Sprintf("received htlc %d with its preimage", h.HtlcIndex),
@@ -989,9 +993,13 @@ func (c *verifC05Run) valueCheck(i int, kind string, tx *wire.MsgTx, cl *verifC0
 		bad += fmt.Sprintf(" unclaimed outputs %v, only the peer's %v may stay unclaimed", unclaimed, expUn)
 	}
 	if bad != "" {
-		e.viol("value_claimable", c.key(kind),
-			fmt.Sprintf("%s (party %d, commitment height %d of party %d, dust %d, rate %d): %s; outputs %v",
-				kind, i, commit.CommitHeight, owner, dust, commit.FeePerKw, bad, verifC05Values(tx)))
+		detail := fmt.Sprintf("%s (party %d, commitment height %d of party %d, dust %d, rate %d): %s; outputs %v",
+			kind, i, commit.CommitHeight, owner, dust, commit.FeePerKw, bad, verifC05Values(tx))
+		if verifC05ValueIsVerdict {
+			e.viol("value_claimable", c.key(kind), detail)
+		} else {
+			c.vc.Diag("value_claimable", e.p.TypeName+" "+detail)
+		}
 	}
 }
 
@@ -1096,8 +1104,9 @@ func verifC05Case(vc *verifCtx, t testing.TB, i int) {
 	run := &verifC05Run{e: e, vc: vc, t: t}
 	maxChecks := 7
 	checks := 0
+	force := false
 	check := func(who int, reload bool) {
-		if e.ended || checks >= maxChecks {
+		if e.ended || (checks >= maxChecks && !force) {
 			return
 		}
 		checks++
@@ -1144,7 +1153,9 @@ func verifC05Case(vc *verifCtx, t testing.TB, i int) {
 			if w1 && (!w0 || cr.Bool()) {
 				who = 1
 			}
-			vc.Count("checks_in_pending_window", 1)
+			if checks < maxChecks {
+				vc.Count("checks_in_pending_window", 1)
+			}
 			check(who, false)
 		case cr.Intn(100) < checkPct:
 			check(cr.Intn(2), false)
@@ -1154,7 +1165,7 @@ func verifC05Case(vc *verifCtx, t testing.TB, i int) {
 		// leave every fated resolution pending half of the time so that the
 		// quiescent state still carries HTLCs.
 		if e.drain(cr.Bool(), nil) {
-			checks = maxChecks - 2
+			force = true
 			check(0, false)
 			check(1, false)
 		}
